@@ -5,6 +5,7 @@ Dimensions: D4 (the peer's sizes, chatter, engine choice and failures) and D1 (c
 writes colour features into the caller's tree; several computes / renders / orientation
 switches happen on the same object).
 """
+import hashlib
 import math
 import re
 
@@ -622,9 +623,9 @@ def execute(case, focus=None):
                           f"(missing anchor?)")
                 continue
             _check_tikz(run, world, lay, code, width, where, orient)
-            run.event(idx, "render", orient, len(code))
+            run.event(idx, "render", orient, hashlib.sha256(code.encode()).hexdigest())
         else:
-            run.event(idx, "compute", orient, repr(dumped)[:0], len(dumped))
+            run.event(idx, "compute", orient, hashlib.sha256(repr(dumped).encode()).hexdigest())
     if n_computes > 1:
         run.nontrivial = True
     if case["peer"]["chatter"] or case["params"] or world.colors or world.lab is not None:
